@@ -47,6 +47,11 @@ CLAIMED["C07"] = dict(
    note="Bounds: payload lengths {0,1,19,20,24} with every byte symbolic, 2 pairs, symbolic pair states and priorities 1..256, any IPv4 source. Trusted: encoder, z3, fake sockets, sync.Map sequential model, taskloop.Run contract. Outside: delivery at the peer, re-selection races.",
    ref="DESIGN.md §5 C07")
 
+CLAIMED["C19"] = dict(
+   text="Differential check: the real evaluateRewriteRules/ruleMappingForLookup/catchAllSpecificity run on symbolic compiled rule lists next to a short reference implementation of the documented precedence (first explicit Local match, else most specific catch-all, declaration order on ties, interface/CIDR/family must match); z3 proves rule, mode and family equal on every path. The four appliers are checked against the replace/append/empty-list table, and construction-time validation against a concrete pool of valid/invalid rule pairs.",
+   note="Bounds: 2 rules quick / 3 thorough (+4 catch-all-only), interface names any 2 bytes, CIDR any /8, flags and modes symbolic. One deviation is a listed known finding (CIDR-only vs global when the lookup has an interface name; pinned by the repo's own test). Trusted: encoder, z3, net.IPNet.Contains/IP.String as real code. Outside: text validation beyond the pool.",
+   ref="DESIGN.md §5 C19")
+
 NOT_APPLICABLE = {
  "C01": "needs two live agents, a symbolic network scheduler and a fairness (liveness) argument; a sequential encoder of single functions cannot express it (its safety half is covered by the C02/C03 lemmas)",
  "C08": "termination / unblocking of blocked goroutines and a goroutine census: no scheduler or channel model in a sequential SSA encoder",
@@ -61,7 +66,6 @@ NOT_BUILT = {
  "C15": "check not built yet in this round (planned in DESIGN.md §5); not claimed",
  "C16": "check not built yet in this round (planned in DESIGN.md §5); not claimed",
  "C18": "check not built yet in this round (planned in DESIGN.md §5); not claimed",
- "C19": "check not built yet in this round (planned in DESIGN.md §5); not claimed",
 }
 
 def main():
